@@ -282,6 +282,12 @@ func applyEdit(w *wireReq, edit string) bool {
 		mw.Close()
 		w.body = buf.Bytes()
 		w.header.Set("Content-Type", "multipart/mixed; boundary="+mw.Boundary())
+	case "stray_override":
+		if w.method == "DELETE" {
+			w.header.Set("X-HTTP-Method-Override", "GET")
+		} else {
+			w.header.Set("X-HTTP-Method-Override", "DELETE")
+		}
 	case "override_with_url_query":
 		u := *w.url
 		u.RawQuery = "a"
@@ -360,8 +366,11 @@ func exchange(h http.Handler, orig AReq, q string, th int, edit string) (o obs) 
 	o.Tunnelled = w.method == "POST" && w.header.Get("X-HTTP-Method-Override") != ""
 	o.Untouched = w.method == ref.method && w.url.String() == ref.url.String() && bytes.Equal(w.body, ref.body) &&
 		w.header.Get("Content-Type") == ref.header.Get("Content-Type") && w.header.Get("X-HTTP-Method-Override") == ""
-	if !o.Tunnelled {
+	if !o.Tunnelled && edit != "stray_override" {
 		edit = "none" // the adversary of the model only damages tunnelled requests
+	}
+	if edit == "stray_override" && (o.Tunnelled || w.method == "POST") {
+		edit = "none"
 	}
 	if !applyEdit(w, edit) {
 		o.Built = false
@@ -445,7 +454,7 @@ func main() {
 			if !row.Tunnelled && !o.Untouched {
 				violation("C14/below-threshold-not-untouched", "a request whose query does not exceed the threshold differs from the plain request", cs)
 			}
-			if row.Edit == "none" {
+			if row.Edit == "none" || row.Edit == "stray_override" { // a stray override header on a non-POST request changes nothing
 				if o.DecodeErr || !o.SameAsRef {
 					violation("C14/not-transparent/request-fields", "the de-tunnelled request differs from the request that would have been sent untunnelled", cs)
 				}
